@@ -484,6 +484,8 @@ impl CoreInner {
 		let min_wal_to_keep = entry.wal_number + 1;
 
 		tokio::spawn(async move {
+			#[cfg(surrealkv_verif)]
+			crate::verif::bg_progress();
 			match cleanup_old_segments(&wal_dir, min_wal_to_keep) {
 				Ok(count) if count > 0 => {
 					log::info!(
